@@ -19,9 +19,9 @@ import (
 const liveBase = uint64(8) // virtual time units of the view-0 timeout
 
 type StabInj struct {
-	AtFiring int     `json:"at"`   // injected after this many timer firings (0 = right at stabilisation)
+	AtFiring int     `json:"at"`               // injected after this many timer firings (0 = right at stabilisation)
 	Repeat   bool    `json:"repeat,omitempty"` // ... and again after every later firing (a persistent adversary)
-	Spec     ByzSpec `json:"spec"` // Spec.V is an OFFSET added to the highest view in D at injection time; Spec.H is ignored
+	Spec     ByzSpec `json:"spec"`             // Spec.V is an OFFSET added to the highest view in D at injection time; Spec.H is ignored
 	AsSel    int     `json:"as_sel"`
 }
 
@@ -35,17 +35,17 @@ type LiveCase struct {
 }
 
 type LiveResult struct {
-	Discarded   string // precondition failed (why); "" otherwise
-	H           uint64
-	D           []int
-	Vmin, Vmax  uint64
-	Bound       int
-	Firings     int
-	Committed   bool
-	CommitView  uint64
-	LeaderInD   bool
-	NonTrivial  bool
-	Injected    int
+	Discarded  string // precondition failed (why); "" otherwise
+	H          uint64
+	D          []int
+	Vmin, Vmax uint64
+	Bound      int
+	Firings    int
+	Committed  bool
+	CommitView uint64
+	LeaderInD  bool
+	NonTrivial bool
+	Injected   int
 }
 
 func satShl(base uint64, v uint64) uint64 {
